@@ -713,6 +713,11 @@ fn report(p: &Prepared, res: &ResourceStorage, scn: usize, seq: &[usize], first:
 
 fn replay(case: &Value, l: &mut Local) {
     let scn = case["scenario"].as_u64().unwrap_or(1) as usize;
+    if scn == 5 {
+        let fresh = Engine::from_rules_parametrised(S5_RULES, Default::default(), true, false);
+        let expected: Vec<bool> = (0..S5_URLS.len()).map(|k| s5_ask(&fresh, k)).collect();
+        return s5_case(case["index"].as_u64().unwrap_or(0), &expected, l);
+    }
     // operations are stored by name (indices move when the alphabet grows); plain indices are
     // still accepted
     let nops = match scn { 1 => s1_ops().len(), 2 | 4 => s2_ops().len(), _ => s3_ops().len() };
@@ -737,6 +742,82 @@ fn replay(case: &Value, l: &mut Local) {
                 report(&p, &res, scn, &seq, f, l);
             }
         });
+    });
+}
+
+// =============================== scenario 5: ageing of the regex cache ===========================
+// Five regex rules with a token of their own each (a query touches exactly one cache entry). Every
+// order of first use x every subset used again later x two clock layouts on the virtual clock:
+// entries that are old enough are dropped by the next cleanup while the others survive it; then
+// every rule is queried once more. All answers must be those of a fresh engine.
+
+const S5_RULES: [&str; 5] = ["/alpha/*/one", "/bravo/*/two", "/charlie/*/red", "/delta/*/blue$image", "/echo/*/six"];
+const S5_URLS: [(&str, &str); 7] = [
+    ("https://s.test/alpha/x/one", "script"),
+    ("https://s.test/bravo/x/two", "script"),
+    ("https://s.test/charlie/x/red", "script"),
+    ("https://s.test/delta/x/blue", "image"),
+    ("https://s.test/echo/x/six", "script"),
+    // hits no rule although it carries two rules' tokens, and one rule's text under the wrong type
+    ("https://s.test/charlie/delta/x/blue", "script"),
+    ("https://s.test/alpha/one", "script"),
+];
+
+fn s5_ask(e: &Engine, k: usize) -> bool {
+    let (u, t) = S5_URLS[k];
+    e.check_network_request(&Request::new(u, "https://y.com/", t).unwrap()).matched
+}
+
+fn s5_case(idx: u64, expected: &[bool], l: &mut Local) {
+    let perms = vh::util::permutations(5);
+    let (pi, subset, layout) = ((idx % 120) as usize, (idx / 120 % 32) as u32, idx / 120 / 32);
+    adblock::verif_hooks::set_thread_virtual_clock(true);
+    let r = catch(|| {
+        let mut e = Engine::from_rules_parametrised(S5_RULES, Default::default(), true, false);
+        e.set_regex_discard_policy(RegexManagerDiscardPolicy { cleanup_interval: Duration::from_millis(10), discard_unused_time: Duration::from_millis(15) });
+        let mut bad = None;
+        let mut ask = |e: &Engine, k: usize, step: &str| {
+            if s5_ask(e, k) != expected[k] && bad.is_none() {
+                bad = Some(format!("{} {:?}", step, S5_URLS[k]));
+            }
+        };
+        for &k in &perms[pi] {
+            ask(&e, k, "first use of");
+        }
+        adblock::verif_hooks::advance_thread_clock(Duration::from_millis(if layout == 0 { 12 } else { 8 }));
+        for k in 0..5 {
+            if subset & (1 << k) != 0 {
+                ask(&e, k, "second use of");
+            }
+        }
+        adblock::verif_hooks::advance_thread_clock(Duration::from_millis(if layout == 0 { 6 } else { 9 }));
+        for k in 0..S5_URLS.len() {
+            ask(&e, k, "after the cleanup:");
+        }
+        for k in (0..S5_URLS.len()).rev() {
+            ask(&e, k, "once more:");
+        }
+        bad
+    });
+    adblock::verif_hooks::set_thread_virtual_clock(false);
+    l.evaluations += 1;
+    l.transitions += 5 + subset.count_ones() as u64 + 14;
+    l.compared += 5 + subset.count_ones() as u64 + 14;
+    l.nontrivial += 1;
+    let what = match r {
+        Ok(None) => {
+            l.hist("s5-consistent");
+            return;
+        }
+        Ok(Some(w)) => format!("wrong answer at: {}", w),
+        Err(loc) => format!("panic@{}", loc),
+    };
+    l.hist("s5-INCONSISTENT");
+    l.mismatch(Mismatch {
+        sig: format!("c06.s5.{}", if what.starts_with("panic") { "panic" } else { "answer-differs-from-a-fresh-engine" }),
+        what: format!("first use in order {:?}, clock step, second use of subset {:#07b}, clock step (layout {}): {}", perms[pi], subset, layout, what),
+        case: json!({"scenario": 5, "index": idx}),
+        size: idx,
     });
 }
 
@@ -834,9 +915,20 @@ fn check(ctx: &Ctx) -> i32 {
             }
         });
     }
+    // scenario 5
+    {
+        let fresh = Engine::from_rules_parametrised(S5_RULES, Default::default(), true, false);
+        let expected: Vec<bool> = (0..S5_URLS.len()).map(|k| s5_ask(&fresh, k)).collect();
+        if expected != [true, true, true, true, true, false, false] {
+            eprintln!("machinery: scenario 5 expectations are {:?}", expected);
+            return 3;
+        }
+        ctx.bound("s5_rules", json!(S5_RULES));
+        ctx.par_range("scenario 5: ageing of the regex cache (first-use order x reused subset x clock layout)", 120 * 32 * 2, 16, |i, l| s5_case(i, &expected, l));
+    }
     ctx.finish(
         "model_checking",
-        "three scenarios (S1 engine with tagged regex rules: queries, use/enable/disable tags, discard policies, discard-all, serialize+deserialize into the same and into a fresh engine, rejected loads (garbage, truncated), a mid-range discard policy with explicit clock steps on the hooks' virtual clock; S2 blocker: add_filter of each pool rule, optimize(), tags, queries (S4: the same on a blocker built with optimisations enabled); S3 cosmetic rules + scriptlet resources: queries, reload, resource reload); every operation history of the stated depth whose last operation is a query (shorter ones are prefixes), each on a fresh real subject under a strict-LIFO allocator; every query answer compared with a freshly built engine for the model state (precomputed); non-trivial = the history contains at least two queries; states = model states, transitions = operations executed",
+        "three scenarios (S1 engine with tagged regex rules: queries, use/enable/disable tags, discard policies, discard-all, serialize+deserialize into the same and into a fresh engine, rejected loads (garbage, truncated), a mid-range discard policy with explicit clock steps on the hooks' virtual clock; S2 blocker: add_filter of each pool rule, optimize(), tags, queries (S4: the same on a blocker built with optimisations enabled); S3 cosmetic rules + scriptlet resources: queries, reload, resource reload; S5: five regex rules with a token of their own, every order of first use x every subset used again x two layouts of clock steps on the virtual clock under a mid-range discard policy, then every rule again); every operation history of the stated depth whose last operation is a query (shorter ones are prefixes), each on a fresh real subject under a strict-LIFO allocator; every query answer compared with a freshly built engine for the model state (precomputed); non-trivial = the history contains at least two queries; states = model states, transitions = operations executed",
         &[
             "environment answers (cleanup timer fired, regex discarded) are operations of the alphabet, enumerated not sampled",
             "hash-map iteration order inside the engine is not controlled; a violating history is re-executed twice and under a never-reuse allocator, and labelled",
